@@ -416,7 +416,7 @@ EXPLAIN = {
     'C02': 'The model-side mutators used by every reader are proved (owner adoption, exact growth of the lists, frames); reader walks are bounded.',
     'C04': 'set_parse_tree cannot return normally with a recorded syntax error (proved); the parse-tree walk is bounded against an independent emitter.',
     'C05': 'unquote(safename(s)) == s for every string; constraint walks of writer and reader proved against enc / dec with the round-trip theorem by structural induction; writer purity; the feature tree walks are bounded.',
-    'C06': 'Writer purity proved; the AFM round trip is bounded.',
+    'C06': 'The relation text of the AFM writer (read_relation) and writer purity are proved; constraint text, attributes and the reader are bounded.',
     'C07': 'Writer purity, writer stage 1 (tree -> rule dicts) and the reader of rule elements are proved against the denotation of the format; stage 2 (dicts -> XML elements) and the feature tree are bounded.',
     'C08': 'Writer purity and the constraint walks of writer and reader are proved against the denotation of the format, with the round-trip theorem over the two contracts; the feature tree walks are bounded.',
     'C09': 'FeatureIDE constraint elements are read with the truth value the format defines (proved for every element tree); the feature-tree walks of the four readers are bounded against independent emitters.',
